@@ -25,7 +25,7 @@ theorem binaryExpressionBody_go_spec (prec : Nat) : ∀ fuel x, ExprOK x →
     T src Tr (binaryExpressionBody.go r prec fuel x) (fun e _ => ExprOK e) := by
   intro fuel
   induction fuel with
-  | zero => intro x _; unfold binaryExpressionBody.go; exact T.throw _ rfl
+  | zero => intro x _; unfold binaryExpressionBody.go; exact T.throw _ (fun _ _ => trivial)
   | succ n ih =>
     intro x hx
     unfold binaryExpressionBody.go
@@ -57,7 +57,7 @@ theorem operandBody_spec : T src Tr (operandBody r) (fun e _ => ExprOK e) := by
 theorem parseLitValueBody_go_spec : ∀ fuel acc, T src Tr (parseLitValueBody.go r fuel acc) (fun _ _ => True) := by
   intro fuel
   induction fuel with
-  | zero => intro acc; unfold parseLitValueBody.go; exact T.throw _ rfl
+  | zero => intro acc; unfold parseLitValueBody.go; exact T.throw _ (fun _ _ => trivial)
   | succ n ih => intro acc; unfold parseLitValueBody.go; hloop ih
 
 theorem parseLitValueBody_spec : T src Tr (parseLitValueBody r) (fun _ _ => True) := by
@@ -81,7 +81,7 @@ theorem parseResultBody_spec : T src Tr (parseResultBody r) (fun fl _ => FLOK fl
 theorem paramsListBody_go_spec (cl : Operator) : ∀ fuel acc, T src Tr (paramsListBody.go r cl fuel acc) (fun _ _ => True) := by
   intro fuel
   induction fuel with
-  | zero => intro acc; unfold paramsListBody.go; exact T.throw _ rfl
+  | zero => intro acc; unfold paramsListBody.go; exact T.throw _ (fun _ _ => trivial)
   | succ n ih => intro acc; unfold paramsListBody.go; hloop ih
 
 theorem paramsListBody_spec (op cl : Operator) : T src Tr (paramsListBody r op cl) (fun fl _ => FLOK fl) := by
